@@ -391,6 +391,7 @@ func (fr *Frame) step(ins0 ssa.Instruction, st *State, reach string, b *ssa.Basi
 		mt := ins.Map.Type().Underlying().(*types.Map)
 		x.addObl("safety:nil-map-write", "", x.posOf(ins), reach, sNot(sEq(m.T, "0")))
 		x.assume(reach, sNot(sEq(m.T, "0")))
+		x.checkElemTypeInv(m.Src, fr.value(ins.Value), reach, x.posOf(ins))
 		x.mapStore(st, mt, m.T, fr.value(ins.Key), fr.value(ins.Value))
 	case *ssa.MakeMap:
 		mt := ins.Type().Underlying().(*types.Map)
@@ -806,6 +807,9 @@ func (x *VC) loadAddr(a *Addr, st *State) *Val {
 		v := x.scalar(x.define("ld_"+a.PathN[len(a.PathN)-1], c.Elem, sSel(x.get(st, c), a.Base)), t)
 		x.typeFacts(v, st)
 		x.typeInvFacts(a, v)
+		if n := namedOf(a.Owner); n != nil && len(a.PathN) == 1 {
+			v.Src = n.Obj().Name() + "." + a.PathN[0]
+		}
 		return v
 	}
 	x.refuse("load from unknown address kind")
@@ -1559,6 +1563,7 @@ func (fr *Frame) lookup(ins *ssa.Lookup, st *State, reach string) *Val {
 	}
 	val := x.scalar(x.define("mv", vs, sIte(has, x.mapGet(st, mt, xv.T, kv.T), x.zero(mt.Elem()).T)), mt.Elem())
 	x.typeFacts(val, st)
+	x.elemTypeInvFacts(xv.Src, val, true)
 	if ins.CommaOk {
 		return &Val{K: KStruct, Fs: []*Val{val, bval(has)}, GT: ins.Type()}
 	}
